@@ -197,3 +197,52 @@ Qed.
 Lemma rw_step_refused pkg files anns :
   rw_accepts pkg anns = false -> rw_step pkg files anns = Err.
 Proof. intros H. unfold rw_step. rewrite H. reflexivity. Qed.
+
+(* ---------- the read-writer with its options ---------- *)
+
+Lemma in_dedup x l : In x (dedup l) -> In x l.
+Proof.
+  induction l as [|a t IH]; cbn; auto. destruct (str_in a t); cbn; intros H; auto. destruct H; auto.
+Qed.
+
+Lemma in_read_paths o files f :
+  In f (rw_read_paths o files) -> exists pf, In pf files /\ f = fst pf /\ snd pf <> [].
+Proof.
+  unfold rw_read_paths. intros H. apply in_flat_map in H as (pf & Hin & Hm).
+  apply in_map_iff in Hm as (c & <- & Hc). exists pf. repeat split; auto. destruct (snd pf); [contradiction|discriminate].
+Qed.
+
+(* Full strength over the options: whatever OmitReaderAnnotations / KeepReaderAnnotations say and whatever
+   path annotations the file contents carry, every path a Write deletes is the package path followed by the
+   relative path of a file the reader opened (and that still yielded a resource) — and there is none at all
+   with NoDeleteFiles. *)
+Theorem rw_deletes_confined_options o pc files steps ds p :
+  canon_comps pc = true -> Forall (fun pf => rel_canon (fst pf)) files ->
+  In (Ok ds) (rw_run_o o (abs_of pc) files steps) -> In p ds ->
+  o_nodelete o = false /\
+  exists pf cs, In pf files /\ cs <> [] /\ canon_comps cs = true /\ fst pf = join_with sep cs /\ p = abs_of (pc ++ cs).
+Proof.
+  intros Hpc Hf Hin Hp. unfold rw_run_o in Hin. apply in_map_iff in Hin as (anns & E & _).
+  unfold rw_step_o, rw_step in E. destruct (rw_accepts (abs_of pc) anns); [|discriminate]. inv E.
+  unfold rw_tracked in Hp. destruct (o_nodelete o) eqn:ND.
+  - unfold pkg_delete_set in Hp. cbn in Hp. contradiction.
+  - split; [reflexivity|].
+    unfold pkg_delete_set in Hp. apply in_map_iff in Hp as (f & <- & Hfl). apply filter_In in Hfl as [Hfl _].
+    apply in_dedup in Hfl. destruct (in_read_paths _ _ _ Hfl) as (pf & Hpf & -> & _).
+    rewrite Forall_forall in Hf. destruct (Hf pf Hpf) as (cs & Hne & Hc & E).
+    exists pf, cs. repeat split; auto. rewrite E. apply join2_rel_canon; auto.
+Qed.
+
+Lemma rw_nodelete_no_deletes o pkg files anns ds :
+  o_nodelete o = true -> rw_step_o o pkg files anns = Ok ds -> ds = [].
+Proof.
+  intros ND H. unfold rw_step_o, rw_step, rw_tracked in H. rewrite ND in H.
+  destruct (rw_accepts pkg anns); [|discriminate]. inv H. reflexivity.
+Qed.
+
+(* non-vacuity *)
+Example rw_options_example :
+  rw_run_o (mkRwOpts true false false) "/pkg" [("a.yaml", [""; "../outside/secret.yaml"]); ("d/b.yaml", ["/etc/passwd"])]
+           [["../x.yaml"]; ["a.yaml"]; []] =
+  [Err; Ok ["/pkg/d/b.yaml"]; Ok ["/pkg/a.yaml"; "/pkg/d/b.yaml"]].
+Proof. reflexivity. Qed.
